@@ -7,6 +7,9 @@ Decides (the structural half of the property: which wire-controlled numbers can 
             it first passes a sanitiser: `min`, the length of something already in memory (`len`), `take_n`/`split` (bounded by the
             input present) or a fallible `try_reserve`. Interprocedural through "parameter reaches a sink" summaries.
  (R8-loop)  no `a..n` loop bound is such a number, except where every iteration consumes input or fails (reviewed rows).
+ (R8-strategy) the change collector's up-front strategy (VecEncoder: one slot per op *claimed* by the change metadata) is chosen only
+            under the build constant CAN_OOM (wasm: a refused reservation is reported as OutOfMemory) or when the claimed size is below
+            the size of the progressive encoder; every other path uses the progressive encoder, whose memory follows the ops present.
  (R8-mat)   run-length amplification inventory: every materialisation (`to_vec`, `collect`) of a hexane column / decoder over
             wire bytes in the parse layer is listed; each is reviewed or a known finding (a run header of a few bytes
             announces up to 2^63 values, so the materialised length is not bounded by the input size).
@@ -150,6 +153,7 @@ def run(ctx):
     ctx.not_decided = "the polynomial bound as such; cost of merge, indexing and sequence-tree operations; memory held by validly large documents."
     ctx.rule("R8-alloc", "taint: wire integer / wire-filled field / decoder value -> allocation size, interprocedural via parameter summaries; sanitisers min, len, take_n, try_reserve")
     ctx.rule("R8-loop", "taint: the same sources -> end of a Range that is iterated")
+    ctx.rule("R8-strategy", "who-may-call VecEncoder::{new,try_new} + edge dominance by the CAN_OOM constant / the size comparison")
     ctx.rule("R8-mat", "inventory of to_vec / collect over hexane columns and decoders built from wire bytes in the parse layer")
     f = ctx.facts()
     T = Taint(f)
@@ -240,3 +244,41 @@ def run(ctx):
             else:
                 ctx.ob("R8-mat", k, False, t["sp"], "a run-length column over wire bytes is materialised element by element: its length is announced by run headers, not bounded by the input size")
     ctx.floor("column materialisations in the parse layer", n_mat, 4)
+    # ---------------- the up-front encoder strategy
+    VE = "automerge::op_set2::change::collector::VecEncoder::"
+    n_ve = 0
+    for p, r in sorted(f.fns.items()):
+        if r["ckey"] != ("automerge", "lib"):
+            continue
+        sites = [(bi, t) for bi, t in f.calls(r) if norm_fn(t.get("res") or t.get("fn")) in (VE + "new", VE + "try_new")]
+        if not sites:
+            continue
+        b = cfg.body(r)
+        ctx.analysed_fns.add(p)
+        const_edges, size_edges = [], []
+        for sb, sw in b.switches():
+            pl = util.op_place(sw["op"])
+            d = b.single_def(pl["l"]) if pl is not None and not pl["p"] else None
+            if d and d[1] != "t" and d[2]["rv"]["k"] == "Use":
+                k = util.op_const(d[2]["rv"]["o"][0])
+                if k is not None and (k.get("def") or "").endswith("::CAN_OOM"):
+                    # the edge taken when the constant is true (non-zero)
+                    zero = [tb for v, tb in sw["targets"] if v == "0"]
+                    nonzero = [tb for v, tb in sw["targets"] if v != "0"] or ([sw["otherwise"]] if zero else [])
+                    const_edges += [(sb, tb) for tb in nonzero]
+            src = b.bool_operand_source(sw["op"])
+            if src and src["kind"] == "bin" and src["op"] in ("Gt", "Ge", "Lt", "Le"):
+                provs = [b.provenance(o, through_calls=True) for o in src["o"]]
+                sizes = [any(norm_fn(c) == "core::mem::size_of" for c in pv.callees()) for pv in provs]
+                if all(sizes):
+                    # `claimed bytes > size_of::<ProgressiveEncoder>()` : the false edge is the small case
+                    truth = False if src["op"] in ("Gt", "Ge") else True
+                    operand_value = (not truth) if src["negated"] else truth
+                    from .. import rules as _r
+                    size_edges.append(_r.bool_switch_edge(b, sb, operand_value))
+        for k, (bi, t) in util.ordinal_keys(sites, lambda it: "%s|%s" % (norm_fn(p), norm_fn(it[1].get("res") or it[1].get("fn")).split("::")[-1])):
+            n_ve += 1
+            ok = (bool(const_edges) and b.edges_dominate(const_edges, bi)) or (bool(size_edges) and b.edges_dominate(size_edges, bi))
+            ctx.ob("R8-strategy", k, ok, t["sp"], "only under CAN_OOM or when the claimed size is below the progressive encoder's" if ok else
+                   "the one-slot-per-claimed-op encoder is chosen without the CAN_OOM constant or the size comparison: memory follows the op count the metadata claims, not the ops present")
+    ctx.floor("VecEncoder constructor call sites", n_ve, 2)
